@@ -46,10 +46,11 @@ func (m *master) spawn(id int) (*worker, error) {
 	w := &worker{id: id}
 	cmd := exec.Command(os.Args[0], "-worker")
 	cmd.Env = append(os.Environ(), "GOMAXPROCS=1", "VERIF_PROP="+m.prop)
+	w.curPath = filepath.Join(m.workDir, fmt.Sprintf("cur.%d", id))
+	cmd.Env = append(cmd.Env, "VERIF_CURFILE="+w.curPath)
 	if m.race {
-		w.curPath = filepath.Join(m.workDir, fmt.Sprintf("cur.%d", id))
 		w.logBase = filepath.Join(m.workDir, fmt.Sprintf("race.%d", id))
-		cmd.Env = append(cmd.Env, "VERIF_CURFILE="+w.curPath, "GORACE=halt_on_error=1 atexit_sleep_ms=0 exitcode=66 log_path="+w.logBase)
+		cmd.Env = append(cmd.Env, "GORACE=halt_on_error=1 atexit_sleep_ms=0 exitcode=66 log_path="+w.logBase)
 	}
 	in, err := cmd.StdinPipe()
 	if err != nil {
@@ -574,6 +575,21 @@ func (m *master) run(evPath, knownPath, cxdir, only string, pbOver int) int {
 							}
 							nw, serr := m.spawn(wi)
 							if serr != nil {
+								setInfra("respawn: " + serr.Error())
+							} else {
+								workers[wi] = nw
+							}
+						} else if code == 67 {
+							// the worker's watchdog: a managed thread ran for 90 s without reaching a scheduling
+							// point: a busy loop that performs no synchronisation (no horizon can end it)
+							pfx, _ := ReadCurrent(workers[wi].curPath)
+							v := &Violation{Scenario: r.s.Name, Oracle: "livelock", Msg: "a thread ran for 90 s without reaching a single scheduling point: a busy loop that performs no synchronisation", Prefix: pfx, Pre: countNonZero(pfx)}
+							if o, ok := r.viol[v.Oracle]; !ok || better(v, o) {
+								r.viol[v.Oracle] = v
+							}
+							r.queue = nil
+							r.incomplete = "stopped: busy loop without scheduling points"
+							if nw, serr := m.spawn(wi); serr != nil {
 								setInfra("respawn: " + serr.Error())
 							} else {
 								workers[wi] = nw
